@@ -193,6 +193,11 @@ func (ts *Terms) compute(v ssa.Value, fr *Frame, depth int) *Term {
 				return ts.of(args[idx], fr.Parent, depth+1)
 			}
 		}
+		if n := namedOf(x.Type()); n != nil && strings.HasPrefix(n.Obj().Name(), "Msg") {
+			if _, isPtr := x.Type().(*types.Pointer); isPtr {
+				return mk("param", "msg") // the request of a message handler, whatever it is called
+			}
+		}
 		return mk("param", x.Name())
 	case *ssa.FreeVar:
 		if fr != nil && fr.MC != nil {
@@ -208,6 +213,20 @@ func (ts *Terms) compute(v ssa.Value, fr *Frame, depth int) *Term {
 		}
 		return mk("free", x.Name())
 	case *ssa.Alloc:
+		// pointer to a struct assembled in place (&T{...}): render the contents
+		if _, isStruct := x.Type().(*types.Pointer).Elem().Underlying().(*types.Struct); isStruct {
+			hasWhole := false
+			for _, r := range *x.Referrers() {
+				if st, ok := r.(*ssa.Store); ok && st.Addr == x {
+					hasWhole = true
+				}
+			}
+			if !hasWhole {
+				if t := ts.loadAlloc(x, nil, fr, depth+1); t.Op == "struct" {
+					return t
+				}
+			}
+		}
 		return &Term{Op: "alloc", Name: x.Comment, Site: x.Pos()}
 	case *ssa.MakeInterface:
 		return ts.of(x.X, fr, depth+1)
